@@ -61,6 +61,17 @@ pub struct VirtIOSound<H: Hal, T: Transport> {
     token_buf: BTreeMap<u16, Vec<u8>>, // store token and its input buf
 }
 
+impl<H: Hal, T: Transport> Drop for VirtIOSound<H, T> {
+    fn drop(&mut self) {
+        // Clear any pointers pointing to DMA regions, so the device doesn't try to access them
+        // after they have been freed.
+        self.transport.queue_unset(CONTROL_QUEUE_IDX);
+        self.transport.queue_unset(EVENT_QUEUE_IDX);
+        self.transport.queue_unset(TX_QUEUE_IDX);
+        self.transport.queue_unset(RX_QUEUE_IDX);
+    }
+}
+
 impl<H: Hal, T: Transport> VirtIOSound<H, T> {
     /// Create a new VirtIO-Sound driver.
     pub fn new(mut transport: T) -> Result<Self> {
